@@ -31,5 +31,13 @@ CHECKS += [
          technique="stateful model-based property testing (rapid) of the real zkDCS against a reference tree model over a fake ZooKeeper wire server"),
 ]
 
+CHECKS += [
+    dict(property_id="C02", category="exploration",
+         text="Generated single-fault histories run the real daemons (state machine, failover approval, switchover, active-list maintenance, repair, recovery checker) over fake ZooKeeper and MySQL wire servers in virtual time: cold-start convergence, client workload, one drawn event at a drawn point of the tick/health cycle for a drawn duration, healing, external resetup tool, quiescence across 90 virtual minutes. Oracles use the fakes' ground truth: at most one host able to acknowledge a write after every mutating statement while the fault lasts, and the end-state clause of the statement including every acknowledged write. Sampling, not exhaustive; bounded liveness in virtual time.",
+         design_ref="DESIGN.md section 4, C02; sections 2.2-2.4",
+         note="Trusted: the two fakes (semantics listed in the evidence assumptions), synctest, and that loop bodies of one process run one at a time in the stepper.",
+         technique="property-based fault-injection testing of the real daemons in a deterministic cluster simulation (rapid + synctest), invariant + end-state oracles on fake-server ground truth"),
+]
+
 _claimed = {c["property_id"] for c in CHECKS}
 NOT_APPLICABLE = [dict(property_id=p, reason="check not built yet in this revision (framework under construction; see DESIGN.md build order)") for p in ALL if p not in _claimed]
